@@ -10,6 +10,7 @@ PYTHONHASHSEED values.
 """
 import json
 import os
+import re
 import subprocess
 import sys
 from fractions import Fraction
@@ -85,6 +86,31 @@ def histories(draw, tier="quick"):
         programs += tw
         nprog += 2
         pair = (nprog - 2, nprog - 1)
+    if draw(st.integers(0, 9)) >= 6:
+        # a command-line run over several benchmark files: one action object, one argument namespace for all files
+        if pair is not None and draw(st.integers(0, 3)) > 0:
+            files = list(pair) if draw(st.booleans()) else list(pair)[::-1]
+            if draw(st.integers(0, 2)) == 0:
+                files.append(files[0])
+        else:
+            files = draw(st.lists(st.integers(0, nprog - 1), min_size=2, max_size=3))
+        common_goals = [g for g in programs[files[0]]["goals"] if all(g in programs[i]["goals"] for i in files)]
+        mode = draw(st.sampled_from(["goals", "goals", "invariants", "invariants_nogoals", "central"]))
+        if not common_goals and mode != "invariants_nogoals":
+            mode = draw(st.sampled_from(["invariants_nogoals", "first_file_goals"]))
+            common_goals = list(programs[files[0]]["goals"])
+        at_n = ["--at_n", str(draw(st.sampled_from([2, 3, 5])))]
+        if mode == "invariants_nogoals":
+            argv = ["--invariants"]
+        elif mode == "invariants":
+            argv = ["--goals"] + common_goals + ["--invariants"] + at_n
+        elif mode == "central":
+            inner = common_goals[0][2:-1]
+            argv = ["--goals", f"c2({inner})", f"k3({inner})", common_goals[0]] + at_n
+        else:
+            perm = draw(st.permutations(common_goals))
+            argv = ["--goals"] + list(perm) + at_n
+        return {"programs": programs, "steps": [], "cli": {"files": files, "argv": argv, "mode": mode}}
     nsteps = draw(st.integers(3, 5 if tier == "quick" else 14))
     steps = []
     if pair is not None and draw(st.integers(0, 4)) > 0:
@@ -183,7 +209,7 @@ def _request(case, step, tier="quick"):
 
 def fresh_signature(req, hashseed="0"):
     env = dict(os.environ, PYTHONHASHSEED=hashseed)
-    p = subprocess.run([sys.executable, "-m", "lib.c20sig"], input=json.dumps(req), capture_output=True, text=True, timeout=300,
+    p = subprocess.run([sys.executable, "-m", "lib.c20sig"], input=json.dumps(req), capture_output=True, text=True, timeout=300, preexec_fn=pd.die_with_parent,
                        cwd=os.path.dirname(os.path.dirname(os.path.abspath(__file__))), env=env)
     for ln in p.stdout.splitlines():
         if ln.startswith("C20SIG "):
@@ -191,12 +217,8 @@ def fresh_signature(req, hashseed="0"):
     raise RuntimeError("fresh run failed: " + (p.stderr or "")[-800:])
 
 
-def fresh_signature_fork(req):
-    """
-    The same single analysis in a forked child of a process that has not analysed anything yet (modules imported at most):
-    Polar's global state (name counter, settings, class flags, lru_caches) is that of a fresh process, at a fraction of the cost of
-    starting a new interpreter.  Must be called before the first in-process analysis of the history.
-    """
+def _in_fresh_fork(fn, arg, timeout=200):
+    """fn(arg) (JSON-able result) in a forked child; must be called while this process has not analysed anything yet"""
     import select
 
     rfd, wfd = os.pipe()
@@ -205,9 +227,10 @@ def fresh_signature_fork(req):
         code = 0
         try:
             os.close(rfd)
-            sig = c20sig.analysis_signature(req)
+            pd.die_with_parent()
+            res = fn(arg)
             with os.fdopen(wfd, "wb") as f:
-                f.write(json.dumps(sig).encode())
+                f.write(json.dumps(res).encode())
         except BaseException:
             code = 1
         finally:
@@ -216,7 +239,7 @@ def fresh_signature_fork(req):
     chunks = []
     with os.fdopen(rfd, "rb") as f:
         while True:
-            r, _, _ = select.select([f], [], [], 200)
+            r, _, _ = select.select([f], [], [], timeout)
             if not r:
                 os.kill(pid, 9)
                 break
@@ -226,6 +249,152 @@ def fresh_signature_fork(req):
             chunks.append(b)
     os.waitpid(pid, 0)
     return json.loads(b"".join(chunks).decode())
+
+
+def fresh_signature_fork(req):
+    """
+    The same single analysis in a forked child of a process that has not analysed anything yet (modules imported at most):
+    Polar's global state (name counter, settings, class flags, lru_caches) is that of a fresh process, at a fraction of the cost of
+    starting a new interpreter.  Must be called before the first in-process analysis of the history.
+    """
+    return _in_fresh_fork(c20sig.analysis_signature, req)
+
+
+# ------------------------------------------------------------------ the command line with several benchmark files (polar.py:main)
+
+_ANSI = re.compile(r"\x1b\[[0-9;]*m")
+_GOAL_ID = re.compile(r"\b(E|k\d+|c\d+)\(([^()]*)\)")
+
+
+def cli_run(arg):
+    """
+    What polar.py:main does: ONE action object from ActionFactory, called for every benchmark file in turn; the first exception ends the run.
+    arg = {"texts": [...], "argv": [...], "limit": seconds}; returns one entry per file that was reached.
+    """
+    import tempfile
+
+    from cli import ArgumentParser
+    from cli.actions import ActionFactory
+
+    d = tempfile.mkdtemp(prefix="c20cli")
+    files = []
+    for i, t in enumerate(arg["texts"]):
+        fn = os.path.join(d, f"file{i}.prob")
+        with open(fn, "w") as f:
+            f.write(t)
+        files.append(fn)
+    outs = []
+    old_argv = sys.argv
+    try:
+        sys.argv = ["polar.py"] + files + list(arg["argv"])
+        args = ArgumentParser().parse_args()
+        action = ActionFactory.create_action(args)
+        for fn in files:
+            try:
+                with pd.time_limit(arg["limit"]), pd.captured_stdout() as buf:
+                    action(fn)
+                outs.append({"out": buf.getvalue()})
+            except pd.CaseTimeout:
+                outs.append({"error": "time_limit"})
+                break
+            except Exception as e:
+                outs.append({"error": pd.refusal_bucket(e)})
+                break
+    finally:
+        sys.argv = old_argv
+        for fn in files:
+            os.unlink(fn)
+        os.rmdir(d)
+    return outs
+
+
+def cli_parse(entry):
+    """comparable view of what the command line printed for one file"""
+    if "error" in entry:
+        return {"error": entry["error"]}
+    res = {"error": None, "at_n": {}, "exact": [], "invariants": None}
+    in_inv = False
+    polys = []
+    for ln in entry["out"].splitlines():
+        ln = _ANSI.sub("", ln).rstrip()
+        if ln.startswith("-   Invariants"):
+            in_inv = True
+            res["invariants"] = []
+        elif in_inv and ln.endswith(" = 0"):
+            polys.append(ln[:-4])
+        elif not in_inv and " | n=" in ln and " = " in ln:
+            lhs, rhs = ln.split(" = ", 1)
+            res["at_n"][lhs] = c20sig.canonical_text(rhs.split(" \u2245 ")[0])
+        elif ln in ("Solution is exact", "Solution is rounded"):
+            res["exact"].append(ln)
+    if polys:
+        import sympy
+
+        names = {}
+
+        def rep(m):
+            return names.setdefault(m.group(0), f"gg{len(names)}x" + "".join(ch if ch.isalnum() else "_" for ch in m.group(0)))
+
+        exprs = [sympy.sympify(_GOAL_ID.sub(rep, p)) for p in polys]
+        syms = sorted({s for e in exprs for s in e.free_symbols}, key=str)
+        G = sympy.groebner(exprs, *syms, order="grevlex", domain=sympy.QQ)
+        res["invariants"] = sorted(str(sympy.Poly(p, *syms).monic().as_expr()) for p in G.exprs)
+    return res
+
+
+def _same_value_text(a, b):
+    if a == b:
+        return True
+    import sympy
+
+    try:
+        d = sympy.simplify(sympy.sympify(a.replace("#", "_")) - sympy.sympify(b.replace("#", "_")))
+        return d == 0
+    except Exception:
+        return False
+
+
+def _cli_equal(a, b):
+    if a["error"] or b["error"]:
+        return a["error"] == b["error"]
+    if a["exact"] != b["exact"] or a["invariants"] != b["invariants"] or set(a["at_n"]) != set(b["at_n"]):
+        return False
+    return all(_same_value_text(a["at_n"][k], b["at_n"][k]) for k in a["at_n"])
+
+
+def run_cli_case(case, tier):
+    key = common.case_key(case)
+    texts = [_text_of(p) for p in case["programs"]]
+    order = case["cli"]["files"]
+    argv = case["cli"]["argv"]
+    tags = ["cli", "cli:" + case["cli"]["mode"], f"cli_files={len(order)}"]
+    base = {"key": key, "tags": tags, "nontrivial": len(order) >= 2 and len({texts[i] for i in order}) >= 2}
+    limit = STEP_LIMIT[tier] * 2
+    alone = {}
+    try:
+        for i in order:
+            if i not in alone:
+                alone[i] = _in_fresh_fork(cli_run, {"texts": [texts[i]], "argv": argv, "limit": limit})[0]
+        seq = _in_fresh_fork(cli_run, {"texts": [texts[i] for i in order], "argv": argv, "limit": limit}, timeout=limit * len(order) + 60)
+    except Exception as e:
+        return dict(base, status="inconclusive", bucket="fresh_run_failed", detail=str(e)[:300])
+    compared = 0
+    for pos, i in enumerate(order):
+        if alone[i].get("error") == "time_limit" or pos >= len(seq) or seq[pos].get("error") == "time_limit":
+            break
+        a, b = cli_parse(seq[pos]), cli_parse(alone[i])
+        if not _cli_equal(a, b):
+            return dict(base, status="violation", bucket="cli_sequence_dependence:" + case["cli"]["mode"], nontrivial=True,
+                        detail={"command_line": ["polar.py"] + [f"file{j}.prob" for j in order] + argv, "position": pos,
+                                "files": {f"file{j}.prob": texts[j] for j in sorted(set(order))},
+                                "in_sequence": a, "alone": b})
+        compared += 1
+        if b["error"]:
+            break  # the command line stops at the first file that raises
+    if compared == 0:
+        return dict(base, status="inconclusive", bucket="cli_time_limit")
+    refused = sum(1 for i in order if alone[i].get("error") not in (None, "time_limit"))
+    return dict(base, status="ok", counters={"cli_files_compared": compared, "cli_files_refused": refused})
 
 
 def _comparable(sig, goals):
@@ -238,6 +407,8 @@ def _timeouts(sig):
 
 
 def run_case(case, tier="quick"):
+    if case.get("cli"):
+        return run_cli_case(case, tier)
     key = common.case_key(case)
     steps = case["steps"]
     kinds = [s["kind"] for s in steps]
@@ -302,4 +473,4 @@ def classify(case, verdict):
 
 
 def sample_repr(case, verdict):
-    return {"programs": [p.get("bench") or p["text"] for p in case["programs"]], "steps": case["steps"], "status": verdict["status"], "tags": verdict["tags"]}
+    return {"programs": [p.get("bench") or p["text"] for p in case["programs"]], "steps": case["steps"], "cli": case.get("cli"), "status": verdict["status"], "tags": verdict["tags"]}
